@@ -84,6 +84,7 @@ def fns(name, args):
 
 
 # ---------------------------------------------------------------------------------- C24 unit references
+import re
 import t1
 
 
@@ -377,8 +378,34 @@ def ref_1d(setting, kind):
     return f
 
 
-def c24_refs():
+def ref_selfcheck(u):
+    """X units of harness/C24/trace.cxx: outputs come in pairs (got<k>, exp<k>), the expectation being composed
+    in the harness from covered handler functions; here only the random inputs are chosen (search() equates the
+    pairs after the exact evaluation)."""
+    import re as _re
+    m = _re.match(r"X(\d)_", u.name)
+    N = int(m.group(1))
+
+    def f(rng):
+        if N == 1:
+            env = {}
+        else:
+            cs = Case(rng, N)
+            cs.handler_members(rng)
+            env = dict(cs.env)
+        for name in u.inputs:
+            if name not in env:
+                env[name] = rq(rng, True) if (name.startswith("F") or name.startswith("vp")) else rq(rng)
+        return env, {}
+    return f
+
+
+def c24_refs(units=()):
     R = {}
+    for u in units:
+        if u.name.startswith("X"):
+            m = re.match(r"X(\d)_E_spatial(_eq\w+)$", u.name)
+            R[u.name] = ref_tangent(int(m.group(1)), "E_spatial", m.group(2)) if m else ref_selfcheck(u)
     for st in ("L", "E"):
         for kind in ("hencky", "stresses", "tangent"):
             R["N1_%s_%s" % (st, kind)] = ref_1d(st, kind)
@@ -415,6 +442,12 @@ def search(ck, units, refs, rng, tracer_bin=None, trials=3, only=None):
                 continue
             stats["points"] += 1
             bad = None
+            onodes = dict(u.outs)
+            expected = dict(expected)
+            for oname in onodes:
+                if oname.startswith("got") and ("exp" + oname[3:]) in onodes:
+                    expected[oname] = val[onodes["exp" + oname[3:]]]
+                    stats["selfcheck_pairs"] = stats.get("selfcheck_pairs", 0) + 1
             for oname, node in u.outs:
                 exp = expected.get(oname)
                 if exp is None:
